@@ -140,6 +140,36 @@ pub fn gen_case(run_seed: u64, tier: Tier) -> PfCase {
     }
 }
 
+/// More than 65 536 occurrences of one symbol (so of one 2-bit digit on every level of its path): counters and
+/// samples of the prefetch support beyond 16 bits. Placed first in the run order so that every build profile sees them.
+pub fn gen_huge_case(run_seed: u64, tier: Tier) -> PfCase {
+    let mut c = gen_case(run_seed, tier);
+    let mut rng = stream(run_seed, "huge");
+    if rng.chance(3, 4) {
+        c.alias = *rng.pick(&[Alias::QWT256Pfs, Alias::QWT512Pfs, Alias::HQWT256Pfs, Alias::HQWT512Pfs]);
+    }
+    let cap = if c.alias.is_huffman() { c.ty.max().min(1 << 16) } else { c.ty.max() };
+    let k = rng.urange(1, 5);
+    let mut syms: Vec<u128> = vec![];
+    while syms.len() < k {
+        let v = (*rng.pick(&[0u128, 1, 3, 5, 16, 21, 63, 64, 200, 255, 4095, 65535])).min(cap);
+        if !syms.contains(&v) {
+            syms.push(v);
+        }
+    }
+    syms.sort();
+    let mut counts: Vec<u64> = (0..k).map(|_| rng.range(1, 3000)).collect();
+    let dom = rng.usize_below(k);
+    counts[dom] = *rng.pick(&[65_535u64, 65_536, 65_537, 70_000, 131_072, 140_000]);
+    c.seq = Seq::Weights {
+        syms: syms.into_iter().map(Sym).collect(),
+        counts,
+        arrange: *rng.pick(&[Arrange::Shuffled, Arrange::SortedRuns, Arrange::RandomRuns, Arrange::Periodic]),
+        seed: rng.next_u64(),
+    };
+    c
+}
+
 fn sig(alias: Alias, op: &str, class: &str, shape: &str) -> Sig {
     Sig {
         property: "C09".into(),
@@ -165,8 +195,22 @@ pub fn exec(case: &PfCase) -> RunOut {
     verif::set_orders(Order::Canonical, Order::Canonical);
     let t = match built {
         Ok(t) => t,
-        Err(_) => {
+        Err(msg) => {
             out.count("construction_failed", 1);
+            // construction is C01/C02's subject - unless only the type WITH prefetch support fails to build the
+            // sequence its sibling builds: then there is no tree on which rank_prefetch could equal rank
+            if let Some(sib) = case.alias.prefetch_sibling() {
+                let with_support = format!("{:?}", case.alias).ends_with("Pfs");
+                verif::set_orders(Order::Seeded(case.orders.0), Order::Seeded(case.orders.1));
+                let sibling_ok = with_support && catch(|| build_tree(sib, case.ty, Path::FromVec, &v)).is_ok();
+                verif::set_orders(Order::Canonical, Order::Canonical);
+                if sibling_ok {
+                    out.violate(
+                        sig(case.alias, "build", panic_kind(&msg), "only_with_prefetch_support"),
+                        format!("{:?}<{:?}> over n={n} cannot be built ({msg}) although {sib:?} builds the same sequence", case.alias, case.ty),
+                    );
+                }
+            }
             out.digest = 5;
             return out;
         }
